@@ -1,6 +1,6 @@
 /* Scripted squid helper for the C47 end-to-end check (trusted lab stub, not part of the model).
  *
- *   helper_authhelper <dir>
+ *   helper_authhelper <dir> conc|plain      (conc: request lines start with a channel number)
  *
  * Works as url_rewrite_program or external_acl_type helper. On start it creates <dir>/started.<pid>. The scenario
  * id is taken from the first request line (...h47x<sid>x...); <dir>/<sid>.txt holds the script, one step per line:
@@ -14,6 +14,7 @@
  * Received lines and writes are appended to <dir>/<sid>.log.
  */
 #include <errno.h>
+#include <fcntl.h>
 #include <signal.h>
 #include <stdio.h>
 #include <stdlib.h>
@@ -74,20 +75,39 @@ int main(int argc, char **argv)
     snprintf(path, sizeof(path), "%s/started.%d", dir, (int)getpid());
     { FILE *f = fopen(path, "w"); if (f) fclose(f); }
 
-    /* first request line names the scenario */
-    if (!next_line(line, sizeof(line))) return 0;
-    nlines = 1;
-    {
-        char *p = strstr(line, "h47x");
-        if (p) {
-            char sid[64]; size_t k = 0;
-            p += 4;
-            while (*p && *p != 'x' && k < sizeof(sid) - 1) sid[k++] = *p++;
-            sid[k] = 0;
+    /* The first request line of a scenario that nobody has claimed yet names the script to run. Lines of scenarios
+     * already claimed (by a previous process that has exited: squid sends it the requests that were still queued)
+     * are answered at once with ERR, which leaves the request exactly as an unanswered one (URL unchanged / denied). */
+    for (;;) {
+        char sid[64]; size_t k = 0;
+        char *p;
+        if (!next_line(line, sizeof(line))) return 0;
+        p = strstr(line, "h47x");
+        if (!p) continue;
+        p += 4;
+        while (*p && *p != 'x' && k < sizeof(sid) - 1) sid[k++] = *p++;
+        sid[k] = 0;
+        snprintf(path, sizeof(path), "%s/%s.claimed", dir, sid);
+        int fd = open(path, O_CREAT | O_EXCL | O_WRONLY, 0644);
+        if (fd < 0) {
+            char out[64]; size_t n = 0;
+            const char *q = line;
+            if (argc > 2 && !strcmp(argv[2], "conc")) {
+                while (*q >= '0' && *q <= '9' && n < 30) out[n++] = *q++;
+                out[n++] = ' ';
+            }
+            memcpy(out + n, "ERR\n", 4); n += 4;
+            if (write(1, out, n) != (ssize_t)n) return 0;
             snprintf(logp, sizeof(logp), "%s/%s.log", dir, sid);
-            snprintf(path, sizeof(path), "%s/%s.txt", dir, sid);
-            sc = fopen(path, "r");
+            logline("late", line, strlen(line));
+            continue;
         }
+        close(fd);
+        nlines = 1;
+        snprintf(logp, sizeof(logp), "%s/%s.log", dir, sid);
+        snprintf(path, sizeof(path), "%s/%s.txt", dir, sid);
+        sc = fopen(path, "r");
+        break;
     }
     logline("recv", line, strlen(line));
     if (!sc) { logline("noscript", "", 0); return 0; }
